@@ -10,6 +10,7 @@
                                                  and SWALLOWS EEXIST/EACCES)           → `saveProg`
                        `_StatePointDict.load`, `Job.init`                             → `initProg`
                        `Job.clear`, `Job.remove`, `Job.move`                          → `clearProg`, `removeProg`, `moveProg`
+                       `Job.reset` (= `clear(); init()`)                              → `Prog.seq`, `resetProg`
     signac/project.py  `Project.clone` (shutil.copytree: per-entry errors are collected,
                        copying continues, `shutil.Error` is raised at the end)         → `cloneProg`
                        `Project.check` / `_get_statepoint_from_workspace`              → `corruptAt`, `check`
@@ -656,5 +657,31 @@ def FaultGood {Sp} (C : Codec Sp) (w w' : World Sp) : Op Sp → Prop
       corruptAt C w' x = true ∨ corruptAt C w' y = true
   | .move a b => w' a = w a ∧ w' b = w b
   | _ => True
+
+/- ---------------------------------------------------------------- sequencing, `Job.reset` -/
+/-- `p ; q` — two calls in a row in the same process: run `p`; if it returns normally (`done ok`)
+    go on with `q` on the file system `p` left; an exception of `p` propagates and ends the
+    composite (a process death ends any run anyway, see `exec`).  The composite is ONE program, so
+    `exec` numbers its steps through: the steps of `q` continue the count of `p`, and the event
+    schedule (indexed by global step number) applies to both halves. -/
+def Prog.seq {Sp} : Prog Sp → Prog Sp → Prog Sp
+  | .done .ok, q => q
+  | .done (.exc n), _ => .done (.exc n)
+  | .done .crashed, _ => .done .crashed
+  | .look f, q => .look (fun w => (f w).seq q)
+  | .step s k, q => .step s (fun o => (k o).seq q)
+
+/-- `Job.reset()` = `self.clear(); self.init()` (signac/job.py): `clear` does nothing on a job
+    whose directory is missing (`os.listdir` raises ENOENT, which `clear` swallows) and `init`
+    then creates it; on an existing directory `clear` empties it and rewrites the document, and
+    `init` (no force, validating) finds the untouched state-point file and returns at once — or
+    writes the file if the directory had none. -/
+def resetProg {Sp} (C : Codec Sp) (k : Key) (order : List Ref) (v : Sp) : Prog Sp :=
+  (clearProg k order).seq (initProg C k v false)
+
+/-- the regression the `reset` scenarios of the differential harness guard against:
+    `reset` implemented as `self.remove(); self.init()` -/
+def removeThenInitProg {Sp} (C : Codec Sp) (k : Key) (order : List Ref) (v : Sp) : Prog Sp :=
+  (removeProg k order).seq (initProg C k v false)
 
 end Signac.Life
